@@ -991,6 +991,7 @@ func runC10(r *RunCtx) error {
 		}
 		g := &c10Gen{p: p.Fork(), accts: accts}
 		var hist []c10Op
+		var forced *c10Op
 		// opening: account 0 provisions a root shared with editors 1,2 and viewer 3 (most histories)
 		opening := []c10Op{}
 		if g.p.Chance(5, 6) {
@@ -1004,7 +1005,35 @@ func runC10(r *RunCtx) error {
 				return err
 			}
 			var o c10Op
-			if s < len(opening) {
+			// a transaction of two messages whose second fails: the grant made by the first must be rolled back
+			// with it, and the account it named must not be able to post afterwards (forced as the next step)
+			if s >= len(opening) && forced == nil && len(preL) > 0 && g.p.Chance(1, 9) {
+				tgt := PickOne(g.p, preL).F
+				if own := g.ownerOf(tgt); own >= 0 {
+					who := g.accts[4] // the stranger: never granted anything
+					grant := c10Op{Kind: "add", K: "edit", Creator: g.accts[own].String(), Address: tgt.Address, FileOwner: tgt.Owner,
+						Ids: c10Editor(tgt.TrackingNumber, who.String()), Keys: "k"}
+					fails := c10Op{Kind: "delete", Creator: g.accts[own].String(), HashPath: hexsha("no-such-entry"), Account: hexsha(g.accts[own].String())}
+					out, at, _ := e.RunTx(grant.msg(), fails.msg())
+					mid, derr := c10Dump(e, sk)
+					if derr != nil {
+						e.Close()
+						return derr
+					}
+					r.Hist("rolled_back_tx", fmt.Sprintf("%s at message %d", out, at))
+					if out != OutOk && len(c10Diff(c10Index(preL), c10Index(mid))) > 0 {
+						r.Finding("C10/tx/failed-transaction-left-writes", "a transaction whose second message failed changed the tree", map[string]interface{}{"history": hist, "tx": []c10Op{grant, fails}})
+					}
+					tn := g.tracking()
+					f := c10Op{Kind: "post", Creator: who.String(), Account: hexsha(g.accts[own].String()), HashParent: tgt.Address, HashChild: hexsha("after-rollback"), Contents: "x",
+						Viewers: g.aclJSON("view", tn, []int{4}), Editors: g.aclJSON("edit", tn, []int{4}), Tracking: tn, Shape: "after-rolled-back-grant"}
+					forced = &f
+				}
+			}
+			if forced != nil && s >= len(opening) {
+				o = *forced
+				forced = nil
+			} else if s < len(opening) {
 				o = opening[s]
 			} else {
 				o = g.next(preL)
